@@ -8,13 +8,14 @@ import Dmn.Model.NumD128
 /-!
 Driver handler for C04.
 
-`(c04 eval <ff> <gf> <graph> <name> <input context>)` → `(<model> <spec> <acyclic>)`:
+`(c04 eval <ff> <gf> <graph> <name> <input context>)` → `(<model> <spec> <acyclic> <build>)`:
 the model of `evaluate_invocable` (`Dmn.Drg.evaluateInvocable`), the specification
 (`Dmn.Drg.Spec.evaluateInvocable`), each `(ok v)`, `(panic site)`, `(diverge)` or
 `(unsupported)`, and whether the graph is acyclic (`Dmn.Drg.acyclic`).
 
 `(c04 closure <gf> <graph> <name>)` → `(names (s …) …)`: `closureNames`.
 `(c04 acyclic <graph>)` → `acyclic` / `cyclic`.
+`(c04 build <graph>)` → `builds` / `cyclic-requirements`: `check_requirements` of `ModelEvaluator::new`.
 
     graph    ::= (graph (<input>…) (<decision>…) (<bkm>…) (<service>…))
     input    ::= (<id> <name> <ty>)
@@ -162,12 +163,16 @@ def handle (args : List Sexp) : String :=
     | some ff, some gf, some g, some name, some input =>
       let m := render (Drg.evaluateInvocable base g ff gf name input)
       let d := render (Drg.Spec.evaluateInvocable base g ff gf name input)
-      s!"({m} {d} {if g.acyclic then "acyclic" else "cyclic"})"
+      s!"({m} {d} {if g.acyclic then "acyclic" else "cyclic"} {if g.checkRequirements then "builds" else "cyclic-requirements"})"
     | _, _, none, _, _ => "(error bad-graph)"
     | _, _, _, _, _ => "(error bad-args)"
   | [.atom "acyclic", g] =>
     match graphOfSexp g with
     | some g => if g.acyclic then "acyclic" else "cyclic"
+    | none => "(error bad-graph)"
+  | [.atom "build", g] =>
+    match graphOfSexp g with
+    | some g => if g.checkRequirements then "builds" else "cyclic-requirements"
     | none => "(error bad-graph)"
   | [.atom "closure", gf, g, name] =>
     match Sexp.nat? gf, graphOfSexp g, Sexp.str? name with
